@@ -72,6 +72,66 @@ def scalar_terms():
             ('gradsq', t_plap, None)]
 
 
+def operator_terms():
+    """terms that use the arithmetic special methods of the field objects themselves (no .value / np.asarray): in the
+    NonlinearForm path u, v, w.x are JaxDiscreteFields, in the independent NumPy path DiscreteFields (ndarray subclass).
+    Require u > 0.  (name, f(u, v, w, xp, H), hand linearisation)"""
+    def c_of(w):
+        return 1. + w.x[0] * w.x[0]           # an array coefficient (field (op) field, then number + array)
+
+    def rdiv_num(u, v, w, xp, H):
+        return (2. / u) * v
+
+    def l_rdiv_num(u, du, v, w, xp, H):
+        return -2. / (u * u) * du * v
+
+    def rdiv_arr(u, v, w, xp, H):
+        return (c_of(w) / u) * v
+
+    def l_rdiv_arr(u, du, v, w, xp, H):
+        return -(c_of(w) / (u * u)) * du * v
+
+    def rsub(u, v, w, xp, H):
+        return (3. - u) * (c_of(w) - u) * v
+
+    def l_rsub(u, du, v, w, xp, H):
+        return (-(c_of(w) - u) - (3. - u)) * du * v
+
+    def rmul(u, v, w, xp, H):
+        return (2. * u) * (c_of(w) * u) * v
+
+    def l_rmul(u, du, v, w, xp, H):
+        return 4. * c_of(w) * (u * du) * v
+
+    def div(u, v, w, xp, H):
+        return (u / 4.) * (u / c_of(w)) * v
+
+    def l_div(u, du, v, w, xp, H):
+        return (u * du) / (2. * c_of(w)) * v
+
+    def fieldfield(u, v, w, xp, H):
+        return (u + u) * ((u * u) / u) * v + (u - u) * v + (u / u) * v
+
+    def l_fieldfield(u, du, v, w, xp, H):
+        return 4. * (u * du) * v
+
+    def power(u, v, w, xp, H):
+        return (u ** 2 + u ** 3) * v
+
+    def l_power(u, du, v, w, xp, H):
+        return (2. * (u * du) + 3. * (u * u) * du) * v
+
+    def add(u, v, w, xp, H):
+        return (u + 1.5) * (u + c_of(w)) * (v / 2.)
+
+    def l_add(u, du, v, w, xp, H):
+        return ((u + c_of(w)) + (u + 1.5)) * du * (v / 2.)
+
+    return [('op:num/field', rdiv_num, l_rdiv_num), ('op:array/field', rdiv_arr, l_rdiv_arr), ('op:c-field', rsub, l_rsub),
+            ('op:c*field', rmul, l_rmul), ('op:field/c', div, l_div), ('op:field(op)field', fieldfield, l_fieldfield),
+            ('op:field**k', power, l_power), ('op:field+c', add, l_add)]
+
+
 def vector_terms(dim):
     def t_elast(u, v, w, xp, H):
         return H.ddot(H.sym_grad(u), H.sym_grad(v)) + 0.5 * H.div(u) * H.div(v)
@@ -149,16 +209,26 @@ def run(ctx, rng):
         if kind == 'scalar' and m.dim() == 1:
             terms = [t for t in terms if t[0] != 'minsurf'] + [t for t in terms if t[0] == 'minsurf']
         ncomb = ctx.n(2, 6)
+        combos = []
         for c in range(ncomb):
             # a random combination of 2-3 terms with random weights
             k = int(rng.integers(2, 4))
             sel = [terms[i] for i in rng.choice(len(terms), size=min(k, len(terms)), replace=False)]
             wts = [float(rng.integers(1, 5)) / 2. for _ in sel]
-            names = [s[0] for s in sel]
             x0 = 0.6 * (rng.random(basis.N) - 0.5) if c else rng.integers(-2, 3, basis.N) / 4.
+            combos.append((sel, wts, x0))
+        if kind == 'scalar' and (not ctx.quick() or cname in ('tri-P1', 'line-P2')):
+            # arithmetic written directly on the field objects (c / u, c - u, u ** 2, u / c, field (op) field ...), at a
+            # positive linearisation point; the NumPy path evaluates the same expressions with ndarray operators
+            ops = operator_terms()
+            for c in range(ctx.n(1, 3)):
+                sel = [ops[i] for i in rng.permutation(len(ops))[:ctx.n(len(ops), len(ops))]]
+                combos.append((sel, [float(rng.integers(1, 5)) / 2. for _ in sel], 1. + 0.5 * rng.random(basis.N)))
+        for sel, wts, x0 in combos:
+            names = [s[0] for s in sel]
             desc = {'config': cname, 'mesh_p': m.p.tolist(), 'mesh_t': m.t.tolist(), 'element': type(elem).__name__,
                     'terms': names, 'weights': wts, 'x': x0.tolist()}
-            key = f'nonlinear:{cname}:{"+".join(names)}'
+            key = f'nonlinear:{cname}:{"+".join(names)}' if not names[0].startswith('op:') else f'nonlinear-field-operators:{cname}'
 
             def fj(u, v, w, sel=sel, wts=wts):
                 return sum(a * t[1](u, v, w, jnp, JH) for a, t in zip(wts, sel))
@@ -181,7 +251,7 @@ def run(ctx, rng):
                 d = rng.random(basis.N) - 0.5
                 fd = (R(x0 + h * d) - R(x0 - h * d)) / (2 * h)
                 check('fd_directional', key, np.abs(Jd @ d - fd).max(), np.abs(fd).max(), dict(desc, direction=d.tolist()))
-            if basis.N <= ctx.n(30, 90):
+            if basis.N <= ctx.n(20, 90):
                 FD = np.zeros((basis.N, basis.N))
                 for kcol in range(basis.N):
                     e = np.zeros(basis.N)
